@@ -1,4 +1,30 @@
-(* C14 - placeholder until the theorems are in place. *)
-Require Import RQ.Base.
-Theorem C14_placeholder : True. Proof. exact I. Qed.
-Print Assumptions C14_placeholder.
+(* C14 - Optimised paths give the same pixels as the general path.
+   PARTIAL: proved at the pixel level (fast-path blitter = masked blitter at coverage 255, the clear colour is exact) and
+   structurally (both routes are one composite over the same rectangle); that an integer-aligned rectangle rasterises to
+   coverage 255 on exactly its pixels is C01's subject; the routes are also compared on the implementation itself
+   (metamorphic pairs) and with the model on every run. *)
+Require Import RQ.Base RQ.Pixel RQ.PixelProofs RQ.F32 RQ.Rect RQ.Raster RQ.PathF RQ.Shader RQ.Surface RQ.Target RQ.TargetProofs RQ.PixelCorollaries RQ.OpsProofs.
+
+(* the blitter of the integer fast path (no coverage mask) and the general path's blitter at coverage 255 compute the same
+   pixel for every blend mode on premultiplied inputs (when the blend function returns) *)
+Theorem C14_fast_path_pixel_eq_general_partial : forall m s d,
+  wf_px s -> wf_px d -> premul s = true -> premul d = true -> (exists b, blend m s d = Ok b) ->
+  blit_px (choose_blitter false None m) s d 0 0 = blit_px (choose_blitter true None m) s d 255 0.
+Proof. exact fast_path_pixel_eq_general. Qed.
+Print Assumptions C14_fast_path_pixel_eq_general_partial.
+(* clear(c): the unclipped route writes c; the clipped route draws c with Src at alpha 1, whose shader colour is exactly c
+   and whose pixel at full coverage is exactly the source *)
+Theorem C14_clear_routes_agree_partial : forall c d, wf_px c -> wf_px d ->
+  alpha_mul c (alpha_to_alpha256 255) = c /\ blit_px (choose_blitter true None Src) c d 255 0 = Ok c.
+Proof. exact (fun c d Hc Hd => conj (clear_colour_is_exact c Hc) (src_replaces c d Hc Hd)). Qed.
+Print Assumptions C14_clear_routes_agree_partial.
+(* draw_image_at is fill_rect with the translated image source (definition of the model, compared with the crate) *)
+Theorem C14_draw_image_at_is_fill_rect_partial : forall st x y im o,
+  draw_image_at st x y im o =
+  fill_rect st x y (of_int (i_w im)) (of_int (i_h im))
+    (Image im ExtPad Bilinear (xf_then_scale (xf_translation (fneg x) (fneg y)) (fdiv (of_int (i_w im)) (of_int (i_w im))) (fdiv (of_int (i_h im)) (of_int (i_h im))))) o.
+Proof. reflexivity. Qed.
+(* both routes of fill_rect are at most one composite on the same destination *)
+Theorem C14_both_routes_are_one_composite_partial : forall st x y w h src o st', fill_rect st x y w h src o = Ok st' -> effect st st'.
+Proof. exact fill_rect_effect. Qed.
+Print Assumptions C14_both_routes_are_one_composite_partial.
